@@ -99,14 +99,14 @@ CHECKS = {
         text=("encode_inj / encode_inj_win32 (pre-hash string only; explicit digest-injectivity hypothesis), join_inj, concat_fixed_inj, options_sorted_inj, tag_inj, ident_valid, names_distinct (distinct positions ⇒ distinct names, whatever the signatures; "
               "fails for two integration domains: known finding) are proved; stability: renumbering_invariant, set_order_irrelevant, signature_stable_across_processes over a Lean transcription of the renumbering in naming.py (hypothesis: the expression's own "
               "coefficients/constants keep their relative creation order — otherwise the kernels differ, renumbering_order_counterexample; UFL's tree hash and operand ordering are opaque/upstream); pre-hash strings, rn dicts, set iteration orders and terminal "
-              "signature data are captured from the real code and compared with the model; request pairs differing in one ingredient (incl. part='diagonal' on scalar/blocked/mixed spaces) must separate when the generated kernels differ; names are stable across "
+              "signature data are captured from the real code and compared with the model; request pairs differing in one ingredient (incl. part='diagonal' on scalar/blocked/mixed spaces, the same points split differently between the expressions of a request) must separate when the generated kernels differ; names are stable across "
               "processes/hash seeds/histories."),
         design="DESIGN.md §6 C13"),
     "C14": dict(
         technique="Lean 4 proof (inductive invariant over every reachable state of an N-process transition system) + forced-schedule correspondence on the real jit.py",
         text=("at_most_one_builder, exactly_one_builder (a failure-free run compiles and links exactly once), marker_implies_complete, load_only_complete (and the loaded module is the one the unique builder linked), reuse, timeout_bound, "
               "no_failure_all_succeed hold for every N, interleaving and fault choice at the granularity of the file-system steps (incl. the temp-file / publish steps of the ready marker); the real compile_forms and compile_expressions are run under a "
-              "deterministic scheduler on all 2-process schedules up to the first marker and seeded 3-process schedules. "
+              "deterministic scheduler on all 2-process schedules up to the first marker and seeded 3-process schedules. The property oracle judges every finished schedule; complaints read off a request's outcome (an exception other than TimeoutError without injected faults, wrong kernel values) are concrete violations even when the trace no longer matches the model. "
               "Atomicity of OS steps and the import machinery are trusted (partial)."),
         design="DESIGN.md §6 C14, App. B"),
     "C15": dict(
@@ -150,7 +150,7 @@ CHECKS = {
         text=("merge_precedence, cli_only_given, decl_defined_templates (for every filling of the holes of the C template pairs — regenerated from the template strings and compared byte by byte — that satisfies the lexical obligations, each extern-declared name is defined "
               "by the implementation instance), cli_header_source_consistent (format_code: header = declarations, source = implementations in the same block order, every declared name defined in the source text), format_code_concat with the IndexError branch, sanitise_ident "
               "are proved; decl_defined_probes is a regression table. Every real template instantiation (probes and CLI runs) is recorded: the model's instance must equal the emitted text, the filling must meet the obligations, declaration and implementation must be filled "
-              "alike. get_options/parse_args/format_code are compared with the model on random inputs (ragged included); fixed and seeded generated .ufl files (cells × elements × integrals × names × file names × -n/-o/-i × scalar types × $PWD json) go through ffcx.main.main, "
+              "alike. get_options/parse_args/format_code are compared with the model on random inputs (ragged included); the precedence sentence (command line > $PWD json > user json > default) is evaluated as an oracle on the real main for every option and random source combination; fixed and seeded generated .ufl files (cells × elements × integrals × names × file names × -n/-o/-i × scalar types × $PWD json) go through ffcx.main.main, "
               "are compiled stand-alone, checked with nm, compared with the JIT path, and the numba output is imported and compared."),
         design="DESIGN.md §6 C20"),
 }
